@@ -1,5 +1,7 @@
 import MuscleModel.Engines.Msg
+import MuscleModel.Engines.Queue
 import MuscleModel.Engines.Srv
+import MuscleModel.Engines.Tunnel
 
 open Muscle.Eng
 
@@ -14,7 +16,9 @@ partial def loop (h : IO.FS.Stream) (out : IO.FS.Stream) (e : Engine) (s : e.σ)
 
 def engines : List (String × Engine) := [
   ("msg", MsgEngine.engine),
-  ("srv", SrvEngine.engine)
+  ("q", QueueEngine.engine),
+  ("srv", SrvEngine.engine),
+  ("tun", TunEngine.engine)
 ]
 
 def main (args : List String) : IO UInt32 := do
